@@ -355,7 +355,25 @@ class C09(Prop):
                 ln = layout[i]["len"]
                 layout[i]["described"] = rng.choice([ln + 1, ln + 4096, max(0, ln - 1), ln // 2, 0, ln * 2 + 7, 1 << 40])
             params["mode"] = rng.choice(["legacy", "legacy", "fast", "single_pass"])
+        if not pristine and kind in ("macho", "fat") and rng.chance(1, 3):
+            # 64-bit extremes (2^64-1, 2^64 - arch_offset, 2^63, …) in LC_MAIN / LC_UNIXTHREAD / segment / fat arch fields
+            m = mg.macho_extremes(rng, b)
+            if m:
+                mkind, what, edits = "macho-extreme", m[0], m[1]
+                size = len(mg.apply_edits(b, edits))
         rules = self.gen_rules(rng, kind, size)
+        # module FUNCTIONS called with arguments taken from the file (through the module's own values): where
+        # attacker-controlled integers meet arithmetic
+        rules += mg.call_rules(rng, kind, "c", 4 if mkind in ("macho-extreme", "entry-extreme") else 2)
+        if layout is None and size > 0 and rng.chance(1, 12):
+            # a region at the very top of the address space (the FragmentedMemory API accepts any start); the fetched
+            # bytes may run past the end of the address space when the description is shorter
+            M = (1 << 64) - 1
+            k = rng.choice([0x40, 1, size // 2, size, size + 1, size + 0x1000])
+            layout = [{"start": M - k, "off": 0, "len": size, "fail": False}]
+            if k < size and rng.chance(1, 2):
+                layout[0]["described"] = k
+            params["mode"] = rng.choice(["legacy", "fast", "single_pass"])
         if "entry-extreme" in mkind or rng.chance(1, 6):
             rules.append({"tag": "e0", "imports": [], "cond": "entrypoint >= 0 or entrypoint < 0"})
             m = {"pe": "pe", "elf": "elf", "macho": "macho", "fat": "macho"}.get(kind)
@@ -413,6 +431,23 @@ class C09(Prop):
             c = self.gen_explore(rng.fork("synth%d" % i), (pth, open(pth, "rb").read(), kind), True)
             c.update({"mutation": "synthetic", "what": [name]})
             cases.append(c)
+        # systematic: every .NET metadata index column x boundary values (0, 1, rows-1, rows, rows+1, rows+2, max; heap
+        # sizes likewise); all rows of small tables, first/last two rows of the others (all rows in the thorough tier)
+        sweep_rules = [{"tag": "r0", "imports": ["dotnet"], "cond": "dotnet.number_of_classes >= 0"},
+                       {"tag": "r1", "imports": ["dotnet"], "cond": "for any c in dotnet.classes : (c.number_of_methods >= 0 and c.number_of_base_types >= 0)"}]
+        for a in groups.get("dotnet", []):
+            for what, edit in mg.net_index_sweep(a[1], all_rows=(n > 5000)):
+                cases.append({"kind": "explore", "asset": a[0], "fkind": "pe", "mutation": "dotnet-index", "what": [what],
+                              "edits": [edit], "layout": None, "params": {"process_memory": False}, "rules": sweep_rules})
+        # systematic: every entry-point carrying field of every Mach-O asset x extremes, with every macho function called
+        # on the cpu types the file itself publishes
+        for a in groups.get("macho", []):
+            mrules = mg.all_call_rules(a[2]) + [{"tag": "e0", "imports": [], "cond": "entrypoint >= 0"}]
+            for what, edit in mg.macho_entry_sweep(a[1]):
+                cases.append({"kind": "explore", "asset": a[0], "fkind": a[2], "mutation": "macho-entry-sweep", "what": [what],
+                              "edits": [edit], "layout": None, "params": {"process_memory": len(cases) % 4 == 0},
+                              "rules": mrules})
+        n_explore += sum(1 for c in cases if c["mutation"] in ("dotnet-index", "macho-entry-sweep"))
         i = 0
         while len(cases) < n_explore:
             r = rng.fork("m%d" % i)
